@@ -89,7 +89,7 @@ class CovarianceMatrix(object):
         # for each WFS un units of metres from the centre of the pupil
         self.subap_positions = []
         for wfs_n in range(self.n_wfs):
-            wfs_subap_pos = numpy.array(numpy.where(self.pupil_masks[wfs_n] == 1)).T * self.subap_diameters[wfs_n]
+            wfs_subap_pos = numpy.array(numpy.where(self.pupil_masks[wfs_n] == 1)).T * float(self.subap_diameters[wfs_n])
             wfs_subap_pos -= self.telescope_diameter/2.
             wfs_subap_pos += self.subap_diameters[wfs_n]/2.
 
